@@ -457,6 +457,34 @@ def concurrent_objects(res, rng, dumps):
                 return
 
 
+def cli_equals_api(res, rng, dump):
+    """The command line prints exactly the lines the library formats under the same switches (every listing command,
+    thread-id column on and off, colour on and off for traces)."""
+    from vlib import cli
+    for cmd in ('kevents', 'traces', 'callstacks'):
+        show_tid = rng.random() < 0.5
+        color = rng.random() < 0.5 if cmd == 'traces' else None
+        out, exc, args = cli.run(cmd, dump['data'], show_tid=show_tid, color=color)
+        case = {'file': dump['data'], 'cmd': cmd, 'args': args}
+        if exc is not None:
+            res.violation(f'c14-cli-raises-{core.exc_name(exc)}', f'`{cmd} {" ".join(args)}`: {exc!r}', case)
+            return
+        try:
+            want = cli.api(cmd, dump['data'], show_tid=show_tid, color=True if color is None else color)
+        except Exception as x:
+            res.violation(f'c14-raises-{core.exc_name(x)}', f'{cmd}: {x!r}', case)
+            return
+        res.count('cli_listings_compared')
+        if out != ''.join(l + '\n' for l in want):
+            got = out.split('\n')[:-1]
+            flat = [x for l in want for x in l.split('\n')]
+            k = next((i for i, (a, b) in enumerate(zip(got, flat)) if a != b), min(len(got), len(flat)))
+            res.violation('c14-cli-differs-from-api', f'`{cmd} {" ".join(args)}` prints {len(got)} lines, the library formats '
+                          f'{len(flat)}; first difference at line {k}: {got[k] if k < len(got) else None!r} vs '
+                          f'{flat[k] if k < len(flat) else None!r}', case)
+            return
+
+
 def check_logs(res, rng):
     """Log lines: colour never changes the text; a record that names its process and thread is shown under the
     process the dump declares for that thread (the record itself declares it)."""
@@ -515,6 +543,8 @@ def run(ctx):
         if r is not None and not wall:
             check_process_column(res, dump, r[0])
         check_colour(res, dump)
+        if i % 2 == 0:
+            cli_equals_api(res, rng, dump)
         if prev_dump is not None and i % 2:
             concurrent_objects(res, rng, [prev_dump, dump])
         prev_dump = dump
@@ -538,6 +568,7 @@ def run(ctx):
     res.require('reused_object_requests', 20)
     res.require('callstack_headers_checked', 10)
     res.require('long_dumps', 1)
+    res.require('cli_listings_compared', 12)
     res.require('concurrent_object_listings', 6)
     res.require('callstacks_of_threads_remapped_or_renamed_earlier', 1)
     res.require('callstacks_of_threads_renamed_under_the_same_pid', 1)
